@@ -131,6 +131,14 @@ Definition src_subscribe (P : prog) (o : op1) : option (rv * list ev) :=
   | None => None
   end.
 
+(* the method and its arguments for a notification *)
+Definition arg_of (e : ev) : string * list rv :=
+  match e with
+  | Next v => ("next", [VItem v])
+  | Err x => ("error", [VErrv x])
+  | Done => ("complete", [])
+  end.
+
 (* what holds of every state the machine reaches (needed where the source has a loop: the evaluator runs
    `while` under a bound, and take_last's queue never holds more than `count` items between two calls) *)
 Definition inv1 (o : op1) (st : ost) : Prop :=
